@@ -61,22 +61,23 @@ type Run struct {
 
 	start time.Time
 
-	mu           sync.Mutex
-	evals        int64
-	distinct     map[uint64]struct{}
-	distinctBulk int64
-	rule         string
-	samples      []any
-	maxSamples   int
-	counters     map[string]int64
-	extra        map[string]any
-	assumptions  []string
-	violations   []violation
-	seenKeys     map[string]bool
-	knownHit     map[string]bool
-	inconclusive []string
-	exhaustive   bool
-	open         map[string]string // key -> text of open known findings for this property
+	mu            sync.Mutex
+	evals         int64
+	distinct      map[uint64]struct{}
+	distinctBulk  int64
+	rule          string
+	samples       []any
+	maxSamples    int
+	counters      map[string]int64
+	extra         map[string]any
+	assumptions   []string
+	violations    []violation
+	seenKeys      map[string]bool
+	knownHit      map[string]bool
+	inconclusive  []string
+	inconclusiveN int
+	exhaustive    bool
+	open          map[string]string // key -> text of open known findings for this property
 }
 
 // Quick reports whether the run is the quick tier.
@@ -217,9 +218,15 @@ func (r *Run) Violations() int {
 // Inconclusive records that part of the run could not decide.
 func (r *Run) Inconclusive(msg string) {
 	r.mu.Lock()
-	r.inconclusive = append(r.inconclusive, msg)
+	n := len(r.inconclusive)
+	if n < 50 {
+		r.inconclusive = append(r.inconclusive, msg)
+	}
+	r.inconclusiveN++
 	r.mu.Unlock()
-	fmt.Printf("INCONCLUSIVE property=%s %s\n", r.ID, msg)
+	if n < 10 {
+		fmt.Printf("INCONCLUSIVE property=%s %s\n", r.ID, msg)
+	}
 }
 
 func loadOpenFindings(id string) map[string]string {
